@@ -6,6 +6,7 @@ package PKG
 // the replay test for the counterexamples the solver produces for it.
 
 import (
+	"crypto/sha256"
 	"encoding/hex"
 	"encoding/json"
 	"fmt"
@@ -120,6 +121,17 @@ func vpNote(s string)                    {}
 func vpConcretizeInt(x int) int          { return x }
 func vpConcretizeString(s string) string { return s }
 func vpIsSymbolic(x any) bool            { return false }
+// vpInjectiveDigest: under gosym a collision-free fixed-size digest of the stream
+// (see the engine); natively a real hash truncated/extended to size bytes.
+func vpInjectiveDigest(stream []byte, size int) []byte {
+	sum := sha256.Sum256(stream)
+	out := make([]byte, size)
+	for i := range out {
+		out[i] = sum[i%len(sum)]
+	}
+	return out
+}
+
 func vpIteInt(c bool, a, b int) int {
 	if c {
 		return a
